@@ -534,4 +534,420 @@ theorem numFrames_pure2 (f : File) (i : Nat) : Pure2 f (fun h => numFrames h i) 
     obtain ⟨o', ho', es⟩ := skel_get_some e ho
     rw [ho']; simp only [es]
 
+
+theorem seq2_pure2 {f : File} {m1 m2 : Heap → Heap × Ans} (h1 : Pure2 f m1) (h2 : Pure2 f m2) :
+    Pure2 f (seq2 m1 m2) := by
+  intro h h' hr
+  obtain ⟨e1, r1, s1⟩ := h1 h h' hr
+  obtain ⟨e2, r2, s2⟩ := h2 (m1 h).1 (m1 h').1 r1
+  unfold seq2
+  rw [← e1]
+  by_cases hE : (m1 h).2.isErr = true
+  · simp only [hE, if_true]; exact ⟨e1, r1, s1⟩
+  · simp only [hE]
+    rw [← e2]
+    exact ⟨rfl, r2, s2.trans s1⟩
+
+theorem minMax_pure2 (f : File) (i : Nat) : Pure2 f (minMax f i) :=
+  seq2_pure2 (evalTop_pure2 f i _) (evalTop_pure2 f i _)
+
+theorem queryLive_pure2 (f : File) (i : Nat) (q : Query) {o o' : Obj} (es : o'.skel = o.skel) :
+    ∀ h h', R f h h' → (queryLive f h i o q).2 = (queryLive f h' i o' q).2 ∧
+      R f (queryLive f h i o q).1 (queryLive f h' i o' q).1 ∧ skelH (queryLive f h i o q).1 = skelH h := by
+  have e1 : o'.start = o.start := congrArg Skel.start es
+  have e2 : o'.stop = o.stop := congrArg Skel.stop es
+  have e6 : o'.path = o.path := congrArg Skel.path es
+  intro h h' hr
+  cases q with
+  | static k => exact ⟨by simp [queryLive, e6], hr, rfl⟩
+  | start => exact ⟨by simp [queryLive, e1], hr, rfl⟩
+  | stop => exact ⟨by simp [queryLive, e2], hr, rfl⟩
+  | infowave => exact ⟨by simp [queryLive, e1, e2], hr, rfl⟩
+  | prim p => exact evalTop_pure2 f i p h h' hr
+  | lineRanges => exact minMax_pure2 f i h h' hr
+  | shape =>
+    unfold queryLive
+    by_cases hs : f.isScan = true
+    · simp only [hs, if_true]; exact numFrames_pure2 f i h h' hr
+    · simp only [hs]; exact evalTop_pure2 f i _ h h' hr
+  | duration => exact seq2_pure2 (evalTop_pure2 f i _) (evalTop_pure2 f i _) h h' hr
+  | numFrames => exact numFrames_pure2 f i h h' hr
+
+/-- **A query never changes a skeleton, and its answer does not depend on memo tables.** -/
+theorem query_pure2 (f : File) (i : Nat) (q : Query) : Pure2 f (fun h => query f h i q) := by
+  intro h h' hr
+  have e := hr.2.2
+  simp only
+  unfold query
+  cases ho : h[i]? with
+  | none => rw [skel_get_none e ho]; exact ⟨rfl, hr, rfl⟩
+  | some o =>
+    obtain ⟨o', ho', es⟩ := skel_get_some e ho
+    rw [ho']
+    have e5 : o'.alive = o.alive := congrArg Skel.alive es
+    have e6 : o'.path = o.path := congrArg Skel.path es
+    simp only [e5, e6]
+    cases o.alive with
+    | false => exact ⟨rfl, hr, rfl⟩
+    | true =>
+      simp only [Bool.not_true, Bool.false_eq_true, if_false]
+      cases f.pure with
+      | true => exact ⟨rfl, hr, rfl⟩
+      | false => exact queryLive_pure2 f i q es h h' hr
+
+
+/-! ### appending an object -/
+
+theorem lt_of_get {h : Heap} {i : Nat} {o : Obj} (ho : h[i]? = some o) : i < h.length := by
+  rcases Nat.lt_or_ge i h.length with hlt | hge
+  · exact hlt
+  · rw [List.getElem?_eq_none hge] at ho; cases ho
+
+theorem get_append_old {h t : Heap} {i : Nat} {o : Obj} (ho : h[i]? = some o) : (h ++ t)[i]? = some o := by
+  rw [List.getElem?_append_left (lt_of_get ho)]; exact ho
+
+theorem get_push {h : Heap} {n : Obj} {i : Nat} {o : Obj} (ho : (h ++ [n])[i]? = some o) :
+    h[i]? = some o ∨ (i = h.length ∧ o = n) := by
+  rcases Nat.lt_or_ge i h.length with hlt | hge
+  · left; rw [List.getElem?_append_left hlt] at ho; exact ho
+  · right
+    rw [List.getElem?_append_right hge] at ho
+    have : i - h.length = 0 := by
+      rcases Nat.eq_zero_or_pos (i - h.length) with h0 | hpos
+      · exact h0
+      · rw [List.getElem?_eq_none (by simp only [List.length_cons, List.length_nil]; omega)] at ho; cases ho
+    rw [this] at ho
+    simp only [List.getElem?_cons_zero, Option.some.injEq] at ho
+    exact ⟨by omega, ho.symm⟩
+
+theorem denAt_congr (f : File) {up up' : Prim → Ans} {h h2 : Heap} {i : Nat} (e : h2[i]? = h[i]?)
+    (hu : ∀ q, up' q = up q) (p : Prim) : denAt f up' h2 i p = denAt f up h i p := by
+  have : up' = up := funext hu
+  subst this
+  unfold denAt
+  rw [e]
+
+/-- objects made later are invisible to the semantics of earlier ones -/
+theorem den_append (f : File) {h : Heap} (t : Heap) (hCh : ChainOK h) :
+    ∀ (chain : List Nat) (i : Nat) (o : Obj) (p : Prim), h[i]? = some o → o.chain = chain →
+      den f chain (h ++ t) i p = den f chain h i p := by
+  intro chain
+  induction chain with
+  | nil =>
+    intro i o p ho _
+    unfold den
+    exact denAt_congr f (by rw [get_append_old ho, ho]) (fun _ => rfl) p
+  | cons par rest ih =>
+    intro i o p ho hc
+    obtain ⟨po, hpo, hpc⟩ := hCh i o ho par rest hc
+    unfold den
+    exact denAt_congr f (by rw [get_append_old ho, ho]) (fun q => ih par po q hpo hpc) p
+
+theorem Good_push {f : File} {h : Heap} {n : Obj} (hG : Good f h) (c1 : n.cache = [])
+    (hcalm : n.alive = true → Untruncated f n.start)
+    (hchain : ∀ par rest, n.chain = par :: rest → ∃ po : Obj, h[par]? = some po ∧ po.chain = rest) :
+    Good f (h ++ [n]) := by
+  obtain ⟨hCalm, hCh, hC⟩ := hG
+  refine ⟨?_, ?_, ?_⟩
+  · intro i o ho ha
+    rcases get_push ho with h1 | ⟨_, h2⟩
+    · exact hCalm i o h1 ha
+    · subst h2; exact hcalm ha
+  · intro i o ho par rest hc
+    rcases get_push ho with h1 | ⟨_, h2⟩
+    · obtain ⟨po, hpo, hpc⟩ := hCh i o h1 par rest hc
+      exact ⟨po, get_append_old hpo, hpc⟩
+    · subst h2
+      obtain ⟨po, hpo, hpc⟩ := hchain par rest hc
+      exact ⟨po, get_append_old hpo, hpc⟩
+  · intro i o ho p v hl
+    rcases get_push ho with h1 | ⟨_, h2⟩
+    · rw [den_append f [n] hCh o.chain i o p h1 rfl]
+      exact hC i o h1 p v hl
+    · subst h2
+      rw [c1] at hl
+      simp [lookup] at hl
+
+theorem push_R {f : File} {h h' : Heap} {n n' : Obj} (a a' : Ans) (hr : R f h h') (es : n'.skel = n.skel)
+    (c1 : n.cache = []) (c2 : n'.cache = [])
+    (hcalm : n.alive = true → Untruncated f n.start)
+    (hchain : ∀ par rest, n.chain = par :: rest → ∃ po : Obj, h[par]? = some po ∧ po.chain = rest) :
+    R f (push h n a).1 (push h' n' a').1 := by
+  obtain ⟨hG, hG', e⟩ := hr
+  have e1 : n'.start = n.start := congrArg Skel.start es
+  have e3 : n'.chain = n.chain := congrArg Skel.chain es
+  have e5 : n'.alive = n.alive := congrArg Skel.alive es
+  refine ⟨Good_push hG c1 hcalm hchain, Good_push hG' c2 (by rw [e1, e5]; exact hcalm) ?_, ?_⟩
+  · intro par rest hc
+    rw [e3] at hc
+    obtain ⟨po, hpo, hpc⟩ := hchain par rest hc
+    obtain ⟨po', hpo', eps⟩ := skel_get_some e hpo
+    exact ⟨po', hpo', by rw [← hpc]; exact congrArg Skel.chain eps⟩
+  · simp only [push, skelH, List.map_append, List.map_cons, List.map_nil]
+    have : List.map Obj.skel h = List.map Obj.skel h' := e
+    rw [this, es]
+
+theorem skel_fields {o o' : Obj} (es : o'.skel = o.skel) :
+    o'.start = o.start ∧ o'.stop = o.stop ∧ o'.chain = o.chain ∧ o'.mode = o.mode ∧ o'.xf = o.xf ∧
+      o'.path = o.path ∧ o'.alive = o.alive ∧
+      o'.frames.getD (.frames o'.start o'.stop) = o.frames.getD (.frames o.start o.stop) :=
+  ⟨congrArg Skel.start es, congrArg Skel.stop es, congrArg Skel.chain es, congrArg Skel.mode es,
+    congrArg Skel.xf es, congrArg Skel.path es, congrArg Skel.alive es, congrArg Skel.fr es⟩
+
+theorem copyObj_skel {o o' : Obj} (es : o'.skel = o.skel) (x : Nat) : (copyObj o' x).skel = (copyObj o x).skel := by
+  obtain ⟨e1, e2, e3, e4, e5, e6, e7, e8⟩ := skel_fields es
+  simp only [Obj.skel, copyObj, e1, e2, e3, e4, e5, e6, e7]
+  rw [e1, e2] at e8
+  rw [e8]
+
+theorem viewObj_skel {o o' : Obj} (es : o'.skel = o.skel) (i x : Nat) (m : Mode) :
+    (viewObj o' i x m).skel = (viewObj o i x m).skel := by
+  obtain ⟨e1, e2, e3, e4, e5, e6, e7, e8⟩ := skel_fields es
+  simp only [Obj.skel, viewObj, copyObj, e1, e2, e3, e6, e7]
+  rw [e1, e2] at e8
+  rw [e8]
+
+theorem scanViewObj_skel {o o' : Obj} (es : o'.skel = o.skel) (i x : Nat) :
+    (scanViewObj o' i x).skel = (scanViewObj o i x).skel := by
+  obtain ⟨e1, e2, e3, e4, e5, e6, e7, e8⟩ := skel_fields es
+  simp only [Obj.skel, scanViewObj, viewObj, copyObj, e1, e2, e3, e6, e7, Option.getD_some]
+
+theorem deadObj_push_R {f : File} {h h' : Heap} (a a' : Ans) (hr : R f h h') :
+    R f (push h deadObj a).1 (push h' deadObj a').1 :=
+  push_R a a' hr rfl rfl rfl (by intro h; cases h) (by intro par rest hc; cases hc)
+
+
+/-! ### derivations -/
+
+/-- time slices of an untruncated kymograph are untruncated (their start is the timestamp of an info-wave
+    sample of the window) -/
+def SliceClosed (f : File) : Prop :=
+  ∀ (s e a b st s' e' : Int), Untruncated f s →
+    sliceBounds (lineRangesOf f.P f.dt (pixelSpans (window f s e))) a b st = some (s', e') → Untruncated f s'
+
+def Sim2 (f : File) (m m' : Heap → Heap × Ans) : Prop :=
+  ∀ h h', R f h h' → (m h).2 = (m' h').2 ∧ R f (m h).1 (m' h').1
+
+theorem den_root (f : File) {h : Heap} {i : Nat} {o : Obj} (ho : h[i]? = some o) (ha : o.alive = true)
+    (hm : o.mode = .root) (chain : List Nat) (p : Prim) :
+    den f chain h i p = defaultAns f o.start o.stop p := by
+  have key : ∀ up, denAt f up h i p = defaultAns f o.start o.stop p := by
+    intro up
+    rw [denAt_nonself f up ho ha (by intro q; rw [hm]; simp [route])]
+    unfold denOne
+    rw [hm]; simp [route]
+  cases chain with
+  | nil => unfold den; exact key _
+  | cons par rest => unfold den; exact key _
+
+theorem tsAns_window (f : File) (s e : Int) (r : Red) (cs : List Color) {s1 e1 : Int}
+    (h : (tsAns f s e r cs).windowOf = some (s1, e1)) : s1 = s := by
+  induction cs with
+  | nil => simp [tsAns, Ans.windowOf] at h
+  | cons c cs ih =>
+    unfold tsAns at h
+    cases hw : cwOf f s e c with
+    | none => rw [hw] at h; exact ih h
+    | some cw =>
+      rw [hw] at h
+      simp only [Ans.windowOf, Option.some.injEq, Prod.mk.injEq] at h
+      exact h.1.symm
+
+theorem seq2_pair {m1 m2 : Heap → Heap × Ans} {h : Heap} {v w : Ans} (hp : (seq2 m1 m2 h).2 = .pair v w) :
+    v = (m1 h).2 := by
+  unfold seq2 at hp
+  cases hE : (m1 h).2.isErr with
+  | true =>
+    rw [hE] at hp
+    simp only [if_true] at hp
+    rw [hp] at hE; simp [Ans.isErr] at hE
+  | false =>
+    rw [hE] at hp
+    simp only [Bool.false_eq_true, if_false] at hp
+    cases hE2 : (m2 (m1 h).1).2.isErr with
+    | true =>
+      rw [hE2] at hp
+      simp only [if_true] at hp
+      rw [hp] at hE2; simp [Ans.isErr] at hE2
+    | false =>
+      rw [hE2] at hp
+      simp only [Bool.false_eq_true, if_false, Ans.pair.injEq] at hp
+      exact hp.1.symm
+
+theorem sliceFinish_sim (f : File) (hS : SliceClosed f) {h2 h2' : Heap} (hr : R f h2 h2') (i x : Nat)
+    (a b : Option Int) {o o' : Obj} (es : o'.skel = o.skel) (r : Ans)
+    (hv : ∀ v w, r = .pair v w → ∀ s e, v.windowOf = some (s, e) → Untruncated f s) :
+    (sliceFinish f h2 i x a b o r).2 = (sliceFinish f h2' i x a b o' r).2 ∧
+      R f (sliceFinish f h2 i x a b o r).1 (sliceFinish f h2' i x a b o' r).1 := by
+  obtain ⟨e1, e2, _, _, _, e6, _, _⟩ := skel_fields es
+  have e := hr.2.2
+  cases ho2 : h2[i]? with
+  | none =>
+    have ho2' := skel_get_none e ho2
+    unfold sliceFinish
+    rw [ho2, ho2']
+    cases r <;> exact ⟨rfl, deadObj_push_R _ _ hr⟩
+  | some o2 =>
+    obtain ⟨o2', ho2', es2⟩ := skel_get_some e ho2
+    obtain ⟨_, f2, f3, _, _, _, f7, _⟩ := skel_fields es2
+    unfold sliceFinish
+    rw [ho2, ho2']
+    cases r with
+    | pair v w =>
+      simp only
+      cases hw : v.windowOf with
+      | none => exact ⟨rfl, deadObj_push_R _ _ hr⟩
+      | some se =>
+        obtain ⟨s, e0⟩ := se
+        simp only [e1, e2, e6, f2]
+        split
+        · exact ⟨rfl, deadObj_push_R _ _ hr⟩
+        · cases hb : sliceBounds (lineRangesOf f.P f.dt (pixelSpans (window f s e0))) (a.getD o.start)
+              (b.getD o.stop) o2.stop with
+          | none => exact ⟨rfl, deadObj_push_R _ _ hr⟩
+          | some se' =>
+            obtain ⟨s', e'⟩ := se'
+            simp only
+            refine ⟨rfl, push_R _ _ hr ?_ rfl rfl ?_ ?_⟩
+            · have := copyObj_skel es2 x
+              simp only [Obj.skel, copyObj] at this ⊢
+              simp only [Skel.mk.injEq] at this
+              obtain ⟨_, _, g3, g4, g5, g6, g7, _⟩ := this
+              simp only [g3, g4, g5, g6, g7, Option.getD_none]
+            · intro _
+              exact hS s e0 _ _ _ s' e' (hv v w rfl s e0 hw) hb
+            · intro par rest hc
+              exact hr.1.2.1 i o2 ho2 par rest hc
+    | int n => exact ⟨rfl, deadObj_push_R _ _ hr⟩
+    | static p k => exact ⟨rfl, deadObj_push_R _ _ hr⟩
+    | iw s e => exact ⟨rfl, deadObj_push_R _ _ hr⟩
+    | «at» p s e => exact ⟨rfl, deadObj_push_R _ _ hr⟩
+    | frames s e => exact ⟨rfl, deadObj_push_R _ _ hr⟩
+    | app x a => exact ⟨rfl, deadObj_push_R _ _ hr⟩
+    | via p a => exact ⟨rfl, deadObj_push_R _ _ hr⟩
+    | err e => exact ⟨rfl, deadObj_push_R _ _ hr⟩
+    | dead => exact ⟨rfl, deadObj_push_R _ _ hr⟩
+
+
+theorem evalTop_den (f : File) {h : Heap} {i : Nat} {o : Obj} (hG : Good f h) (ho : h[i]? = some o) (p : Prim) :
+    (evalTop f h i p).2 = den f o.chain h i p := by
+  unfold evalTop
+  rw [ho]
+  exact (evalPrim_spec f o.chain h i p hG (by intro o' ho'; rw [ho] at ho'; cases ho'; rfl)).1
+
+theorem chain_in_skel {h h2 : Heap} (e : skelH h2 = skelH h) {i : Nat} {o : Obj} (ho : h[i]? = some o) :
+    ∃ o1 : Obj, h2[i]? = some o1 ∧ o1.chain = o.chain := by
+  obtain ⟨o1, ho1, es⟩ := skel_get_some e.symm ho
+  exact ⟨o1, ho1, congrArg Skel.chain es⟩
+
+theorem deriveLive_sim (f : File) (hS : SliceClosed f) (i x : Nat) (d : Derive) {h h' : Heap} {o o' : Obj}
+    (hr : R f h h') (ho : h[i]? = some o) (es : o'.skel = o.skel) (ha : o.alive = true) :
+    (deriveLive f h i x o d).2 = (deriveLive f h' i x o' d).2 ∧
+      R f (deriveLive f h i x o d).1 (deriveLive f h' i x o' d).1 := by
+  obtain ⟨e1, e2, e3, e4, e5, e6, e7, e8⟩ := skel_fields es
+  have hU : Untruncated f o.start := hr.1.1 i o ho ha
+  have hcopy : ∀ par rest, (copyObj o x).chain = par :: rest → ∃ po : Obj, h[par]? = some po ∧ po.chain = rest :=
+    fun par rest hc => hr.1.2.1 i o ho par rest hc
+  cases d with
+  | placeholder => exact ⟨rfl, deadObj_push_R _ _ hr⟩
+  | pureDerive =>
+    exact ⟨by simp [deriveLive, push, e6], push_R _ _ hr (copyObj_skel es x) rfl rfl (fun _ => hU) hcopy⟩
+  | copy =>
+    exact ⟨by simp [deriveLive, push, e6], push_R _ _ hr (copyObj_skel es x) rfl rfl (fun _ => hU) hcopy⟩
+  | view m =>
+    refine ⟨by simp [deriveLive, push, e6], push_R _ _ hr (viewObj_skel es i x m) rfl rfl (fun _ => hU) ?_⟩
+    intro par rest hc
+    simp only [viewObj, List.cons.injEq] at hc
+    obtain ⟨h1, h2⟩ := hc
+    subst h1; subst h2
+    exact ⟨o, ho, rfl⟩
+  | slice a b =>
+    unfold deriveLive
+    rw [e4]
+    by_cases hm : o.mode = .root
+    · simp only [hm, ne_eq, not_true_eq_false, if_false]
+      obtain ⟨q1, q2, _⟩ := minMax_pure2 f i h h' hr
+      rw [← q1]
+      apply sliceFinish_sim f hS q2 i x a b es
+      intro v w hp s e hw
+      have hv : v = (evalTop f h i (.ts .min)).2 := seq2_pair hp
+      rw [hv, evalTop_den f hr.1 ho, den_root f ho ha hm] at hw
+      have : s = o.start := tsAns_window f o.start o.stop .min allColors hw
+      rw [this]; exact hU
+    · simp only [hm, ne_eq, not_false_eq_true, if_true]
+      exact ⟨rfl, deadObj_push_R _ _ hr⟩
+  | scanFail e =>
+    obtain ⟨_, q2, _⟩ := numFrames_pure2 f i h h' hr
+    exact ⟨rfl, deadObj_push_R _ _ q2⟩
+  | scanEmpty =>
+    obtain ⟨_, q2, _⟩ := numFrames_pure2 f i h h' hr
+    exact ⟨by simp [deriveLive, push, e6], deadObj_push_R _ _ q2⟩
+  | scanCrop =>
+    obtain ⟨_, q2, q3⟩ := numFrames_pure2 f i h h' hr
+    refine ⟨by simp [deriveLive, push, e6], push_R _ _ q2 (scanViewObj_skel es i x) rfl rfl (fun _ => hU) ?_⟩
+    intro par rest hc
+    simp only [scanViewObj, viewObj, List.cons.injEq] at hc
+    obtain ⟨h1, h2⟩ := hc
+    subst h1; subst h2
+    exact chain_in_skel q3 ho
+  | scanView =>
+    obtain ⟨_, q2, q3⟩ := numFrames_pure2 f i h h' hr
+    obtain ⟨r1, r2, r3⟩ := minMax_pure2 f i _ _ q2
+    unfold deriveLive
+    rw [← r1]
+    have hch : ∀ par rest, (scanViewObj o i x).chain = par :: rest →
+        ∃ po : Obj, (minMax f i (numFrames h i).1).1[par]? = some po ∧ po.chain = rest := by
+      intro par rest hc
+      simp only [scanViewObj, viewObj, List.cons.injEq] at hc
+      obtain ⟨h1, h2⟩ := hc
+      subst h1; subst h2
+      exact chain_in_skel (r3.trans q3) ho
+    unfold scanViewFinish
+    cases (minMax f i (numFrames h i).1).2 with
+    | pair v w => exact ⟨rfl, push_R _ _ r2 (scanViewObj_skel es i x) rfl rfl (fun _ => hU) hch⟩
+    | int n => exact ⟨rfl, deadObj_push_R _ _ r2⟩
+    | static p k => exact ⟨rfl, deadObj_push_R _ _ r2⟩
+    | iw s e => exact ⟨rfl, deadObj_push_R _ _ r2⟩
+    | «at» p s e => exact ⟨rfl, deadObj_push_R _ _ r2⟩
+    | frames s e => exact ⟨rfl, deadObj_push_R _ _ r2⟩
+    | app x a => exact ⟨rfl, deadObj_push_R _ _ r2⟩
+    | via p a => exact ⟨rfl, deadObj_push_R _ _ r2⟩
+    | err e => exact ⟨rfl, deadObj_push_R _ _ r2⟩
+    | dead => exact ⟨rfl, deadObj_push_R _ _ r2⟩
+
+/-- **A derivation acts alike on two heaps with the same skeleton** (whatever their memo tables hold). -/
+theorem derive_sim (f : File) (hS : SliceClosed f) (i x : Nat) (d : Derive) :
+    Sim2 f (fun h => derive f h i x d) (fun h => derive f h i x d) := by
+  intro h h' hr
+  have e := hr.2.2
+  simp only
+  unfold derive
+  cases ho : h[i]? with
+  | none => rw [skel_get_none e ho]; exact ⟨rfl, deadObj_push_R _ _ hr⟩
+  | some o =>
+    obtain ⟨o', ho', es⟩ := skel_get_some e ho
+    rw [ho']
+    have e7 : o'.alive = o.alive := congrArg Skel.alive es
+    simp only [e7]
+    cases ha : o.alive with
+    | false => exact ⟨rfl, deadObj_push_R _ _ hr⟩
+    | true =>
+      simp only [Bool.not_true, Bool.false_eq_true, if_false]
+      exact deriveLive_sim f hS i x d hr ho es ha
+
+theorem step_sim (f : File) (hS : SliceClosed f) (x : Nat) (op : Op) :
+    Sim2 f (fun h => step f h x op) (fun h => step f h x op) := by
+  cases op with
+  | q i q =>
+    intro h h' hr
+    obtain ⟨a, b, _⟩ := query_pure2 f i q h h' hr
+    exact ⟨a, b⟩
+  | d i d => exact derive_sim f hS i x d
+
+/-- a query step keeps the heap within its skeleton class -/
+theorem step_query_R (f : File) (x i : Nat) (q : Query) {h h' : Heap} (hr : R f h h') :
+    R f (step f h x (.q i q)).1 h' := by
+  obtain ⟨_, b, c⟩ := query_pure2 f i q h h (R_refl hr.1)
+  exact ⟨b.1, hr.2.1, c.trans hr.2.2⟩
+
 end Verif.C19
